@@ -198,7 +198,9 @@ THAwaited ==
      /\ lastw' = 3 * Line.w + (IF Line.kind = "tasks" THEN 2 ELSE 1)
      /\ cancelled' = (cancelled \/ (step.k \in {"before", "leave"} /\ \E c \in C : HK(c).crit /\ HK(c).fails /\ (HK(c).once => c \in failedH)))
      /\ step' = [step EXCEPT !.cf = @ \/ (step.m = Line.m /\ \E c \in C \cap failedH : HK(c).crit),
-                             !.fw = IF \E c \in C \cap failedH : HK(c).crit THEN @ \cup {Line.w} ELSE @]
+                             \* (a hook TASK that never ends has no end event: its failure is the core's timeout, counted in Line.errors)
+                             !.fw = IF \E c \in C : HK(c).crit /\ (c \in failedH \/ (Line.kind = "tasks" /\ HK(c).fails /\ Line.errors > 0))
+                                      THEN @ \cup {Line.w} ELSE @]
      /\ nviol' = nviol
           \* collected at the declared await point, and only calls that were started and not collected before
           + Soft("Barrier", \A c \in C : HK(c).am = Line.m /\ HK(c).aw = Line.w, <<Line.m, Line.w, C>>)
